@@ -34,6 +34,11 @@ structure Cfg where
   rmTempFromIndex : Bool
   /-- `Compactor.Compact` itself removes the temp before `NewFileWriterWithName` -/
   rmTempCompactor : Bool
+  /-- the open restarts a file whose header reads as zeros (size on disk, data not) -/
+  restartsZeroHeader : Bool := false
+  /-- the open does not cut when an intact block lies behind the cut point (damage in the middle of
+      the file): it reports an error and leaves the file untouched -/
+  sparesMidFileDamage : Bool := false
   deriving DecidableEq, Repr
 
 abbrev Mk := List Op → Block
@@ -62,6 +67,13 @@ def validLen (f : List Cell) : Option Nat :=
     if (f.drop 64).length < nl then none
     else some (64 + nl + validBlocksLen f.length (f.drop (64 + nl)))
 
+/-- a whole intact block starts somewhere behind the first cell of `cs` -/
+def tailHoldsBlock (cs : List Cell) : Bool :=
+  (List.range cs.length).any fun i =>
+    i ≥ 1 && match (cs.drop i).head? with
+      | some (.bh b 0) => (cs.drop i).take (16 + b.plen) == blockCells b
+      | _ => false
+
 /-- `NewFileWriter` / `NewFileWriterWithName`: create, or open for append.  `none`: the
     constructor returned an error (unreadable header). -/
 def openWriter (c : Cfg) (d : Disk) (p : Path) (nlNew bs : Nat) : Option (WSt × List FsOp) :=
@@ -70,12 +82,15 @@ def openWriter (c : Cfg) (d : Disk) (p : Path) (nlNew bs : Nat) : Option (WSt ×
   | none => some fresh
   | some f =>
     match headerOf f with
-    | none => if c.truncatesTornTail && f.length < 64 then some fresh else none   -- ≥ 64 bytes with a bad header: an error
+    | none =>   -- ≥ 64 bytes with a bad header: an error, unless it is the zero header of a file that never got its data
+      if c.truncatesTornTail && (f.length < 64 || (c.restartsZeroHeader && (f.take 64).all (· == Cell.zero))) then some fresh
+      else none
     | some nl =>
       if c.truncatesTornTail then
         match validLen f with
         | none => some fresh
         | some keep =>
+          if c.sparesMidFileDamage && tailHoldsBlock (f.drop keep) then none else
           some ({ path := p, pos := keep, nl := nl, buf := [], bufSize := 0, bs := bs },
                 if keep < f.length then [.truncate p keep] else [])
       else some ({ path := p, pos := f.length, nl := nl, buf := [], bufSize := 0, bs := bs }, [])
